@@ -136,3 +136,7 @@ func vNear(a, b, eps float64) bool {
 	d := a - b
 	return d <= eps && -d <= eps
 }
+
+// vLemmaPoint: at every symbolic application site of the named math function
+// the engine asserts the natively evaluated value at x (with monotonicity).
+func vLemmaPoint(fn string, x float64) {}
